@@ -214,16 +214,57 @@ fn char_in_role(role: &str, c: char) -> bool {
 pub fn charroles(args: &[String]) -> i32 {
     let out = arg_value(args, "--out").unwrap_or("-");
     let mut w = open_out(out);
+    // one thread per site: every sweep is 1 114 112 parses of a tiny document
+    let mut handles = vec![];
     for role in ["text", "attr", "comment", "pi", "cdata"] {
-        let res = guarded(|| intervals(|c| guarded(|| char_in_role(role, c)).unwrap_or(false)));
+        handles.push(std::thread::spawn(move || {
+            let res = guarded(|| intervals(|c| guarded(|| char_in_role(role, c)).unwrap_or(false)));
+            (format!("char@{}", role), res)
+        }));
+    }
+    for site in SITES {
+        handles.push(std::thread::spawn(move || {
+            let res = guarded(|| intervals(|c| guarded(|| accepted(&site_text(site, c))).unwrap_or(false)));
+            (site.to_string(), res)
+        }));
+    }
+    for h in handles {
+        let (cls, res) = h.join().unwrap_or_else(|_| ("?".to_string(), Err("thread".to_string())));
         let rec = match res {
-            Ok(iv) => json!({"event": "class", "cls": format!("char@{}", role),
+            Ok(iv) => json!({"event": "class", "cls": cls,
                              "ivs": iv.iter().map(|(a, b)| json!([a, b])).collect::<Vec<_>>()}),
-            Err(p) => json!({"event": "class", "cls": format!("char@{}", role), "panic": p, "ivs": []}),
+            Err(p) => json!({"event": "class", "cls": cls, "panic": p, "ivs": []}),
         };
         writeln!(w, "{}", rec).unwrap();
     }
     0
+}
+
+/// Sites of the grammar where a character class decides acceptance (XmlChar.tla SiteClasses): the document written
+/// for code point c; observed: is it accepted completely?
+const SITES: [&str; 10] = [
+    "encname1@decl", "encname@decl", "versionnum@decl", "pubid@dq", "pubid@sq", "namestart@elem", "namechar@elem",
+    "namestart@attr", "namechar@attr", "namechar@xmlns",
+];
+
+fn site_text(site: &str, c: char) -> String {
+    match site {
+        "encname1@decl" => format!("<?xml version='1.0' encoding='{}a'?><r/>", c),
+        "encname@decl" => format!("<?xml version='1.0' encoding='a{}a'?><r/>", c),
+        "versionnum@decl" => format!("<?xml version='1.{}'?><r/>", c),
+        "pubid@dq" => format!("<!DOCTYPE r PUBLIC \"a{}b\" \"s\"><r/>", c),
+        "pubid@sq" => format!("<!DOCTYPE r PUBLIC 'a{}b' 's'><r/>", c),
+        "namestart@elem" => format!("<{}a/>", c),
+        "namechar@elem" => format!("<a{}b xmlns:a='u'/>", c),
+        "namestart@attr" => format!("<r {}a='v'/>", c),
+        "namechar@attr" => format!("<r xmlns:a='u' a{}b='v'/>", c),
+        "namechar@xmlns" => format!("<r xmlns{}a='u'/>", c),
+        _ => String::new(),
+    }
+}
+
+fn accepted(text: &str) -> bool {
+    matches!(xml_dom::XmlDocument::from_raw(text), Ok((rest, _)) if rest.is_empty())
 }
 
 pub fn names(args: &[String]) -> i32 {
